@@ -748,7 +748,9 @@ def op_constructors(_m, rng):
     import skfem
     meshes = [skfem.MeshTri1.init_circle(1), skfem.MeshTri1.init_lshaped(), skfem.MeshTri1.init_sqsymmetric(),
               skfem.MeshTri1.init_symmetric(), skfem.MeshTet1.init_ball(1), skfem.MeshTri2.init_circle(1)]
-    meshes += [getattr(skfem, c).init_refdom() for c in ('MeshTri1', 'MeshQuad1', 'MeshTet1', 'MeshHex1', 'MeshWedge1')]
+    meshes += [getattr(skfem, c).init_refdom() for c in ('MeshTri1', 'MeshQuad1', 'MeshTet1', 'MeshHex1', 'MeshWedge1', 'MeshTri2',
+                                                          'MeshQuad2')]
+    meshes += [skfem.MeshTet2.init_ball(1)]
     meshes += [skfem.MeshTri1() * skfem.MeshLine(np.array([0., 1., 3.])), skfem.MeshLine(np.array([0., 1., 3., 6.]))]
     for m in meshes:
         name = type(m).__name__
